@@ -175,10 +175,11 @@ func (k *KnownFile) Match(prop string, o *Obligation) *Finding {
 			continue
 		}
 		keyOK := f.Key == o.Key
-		if !keyOK && strings.HasSuffix(f.Key, ":*") {
-			// all members of one named family/class (template-level finding); the deviation
-			// signature below keeps the match specific
-			keyOK = strings.HasPrefix(o.Key, strings.TrimSuffix(f.Key, "*")) && f.Sig != ""
+		if !keyOK && strings.Contains(f.Key, "*") && f.Sig != "" {
+			// a template-level finding names all instances of one generated template by a
+			// glob; the exact deviation signature below keeps the match specific, so a
+			// different deviation in the same constructs is still reported
+			keyOK = globMatch(f.Key, o.Key)
 		}
 		if keyOK && (f.Sig == "" || f.Sig == o.Sig) {
 			return f
@@ -397,4 +398,25 @@ func (r *Result) writeEvidence(all []*Obligation, rules []*RuleInfo, analysed ma
 	dir := filepath.Join(r.VerifDir, "evidence")
 	os.MkdirAll(dir, 0o755)
 	os.WriteFile(filepath.Join(dir, r.Property+".json"), append(b, '\n'), 0o644)
+}
+
+// globMatch: '*' matches any run of characters.
+func globMatch(pat, s string) bool {
+	parts := strings.Split(pat, "*")
+	if !strings.HasPrefix(s, parts[0]) {
+		return false
+	}
+	s = s[len(parts[0]):]
+	for i := 1; i < len(parts); i++ {
+		p := parts[i]
+		if i == len(parts)-1 {
+			return strings.HasSuffix(s, p)
+		}
+		j := strings.Index(s, p)
+		if j < 0 {
+			return false
+		}
+		s = s[j+len(p):]
+	}
+	return true
 }
